@@ -63,6 +63,7 @@ package criteria_concealment
 //@   ensures [report] len(result1) == 1 && result1[0].Id == result0.Criteria[len(resParams.Criteria)].Id && result1[0].Type == model.Gain
 
 //@ func (*CriteriaConcealment).Apply
+//@   refines model.Bias.Apply
 //@   property C18 C07
 //@   requires model.coherent(*listener, *current) && model.coherent(*listener, *original) && len(original.Criteria) > 0
 //@   requires forall i int, j int :: 0 <= i && i < j && j < len(current.ConsideredAlternatives) ==> current.ConsideredAlternatives[i].Id != current.ConsideredAlternatives[j].Id
